@@ -265,16 +265,66 @@ define(
     'Partition: proof modulo ledger/engine.  Validation: exhaustive within '
     'the stated bound, not counted as proved.')
 
+DIAG = 'TBRMMDiagnostics.'
+define(
+    'C05', 'exploration',
+    [('tbrmmdiagnostics', [DIAG + 'estimate_required_impact',
+                           DIAG + 'required_impact', DIAG + 'tbrfit',
+                           DIAG + 'pretestfit'], True)],
+    ENGINE_TRUST[:3] + [
+        'NumPy/SciPy ledger: t and F quantiles, std, var, sqrt are '
+        'uninterpreted; sqrt strictly increasing and non-negative (lemma '
+        'hypotheses)',
+        'OLS identity: residual s.d. of the fit = std(y, ddof=2) sqrt(1 - '
+        'corr^2) (mathematical lemma, checked numerically by the monitor)'],
+    ['floats as reals'],
+    'Proved: estimate_required_impact returns the documented closed form '
+    '(quantile sum x n_test x sqrt(phi (n+1)/(n n_test (n-1)) + 1/n + '
+    '1/n_test) x residual s.d.), tbrfit returns the documented estimate / '
+    'scale / half-width, and (code-independent lemmas) the planning radicand '
+    'equals the TBR scale radicand at the F-quantile displacement and the '
+    'impact strictly decreases in |corr| when the quantile sum is positive '
+    '(the all-levels clause is the known finding).  Against the real TBR '
+    'post-analysis, scaling and shift invariance: bounded run-time contract.',
+    'DESIGN.md section 7, C05',
+    'Level is the weaker (bounded) one: the analysis-side posterior (NumPy '
+    'matrix code of tbr.py) is only checked at run time.')
+
+define(
+    'C06', 'exploration',
+    [('tbrmmdiagnostics', [DIAG + 'tbrfit', DIAG + 'pretestfit'], False)],
+    ENGINE_TRUST[:3] + ['NumPy/SciPy ledger (uninterpreted)'],
+    ['floats as reals'],
+    'Proved: the design-side TBR fit returns n_test (dy - b dx), the Kerman '
+    'scale at t = n_test and half-width = t-quantile x scale.  The '
+    'analysis-side posterior on every analysed day, its invariance to row '
+    'order / geos per group / unassigned rows, and the summary algebra are a '
+    'bounded run-time contract against a plain-NumPy oracle.',
+    'DESIGN.md section 7, C06',
+    'Level is the weaker (bounded) one.')
+
+define(
+    'C20', 'exploration',
+    [('common_classes', None, False), ('utils', None, False)],
+    ENGINE_TRUST[:3] + [
+        'pandas.Timestamp(s) raises ValueError or returns a function of s; '
+        'date_range(a, b) raises ValueError or is the duplicate-free list of '
+        'a day set DR(a, b); str.split yields a non-empty list of pieces'],
+    ['which strings denote which day, and which days a range contains, is '
+     'pandas/dateutil: bounded monitor against a datetime.date oracle'],
+    'Proved for all lists: one window per entry (one piece -> day, two -> '
+    'closed range, otherwise ValueError), only ValueError escapes, reversed '
+    'ranges are rejected (TimeWindow), and the expansion is exactly the '
+    'union of the per-window day sets with every day once.  Calendar '
+    'semantics: bounded run-time contract on the composition.',
+    'DESIGN.md section 7, C20',
+    'Level is the weaker (bounded) one.')
+
 for _pid, _txt in [
-    ('C05', 'required impact closed form, post-analysis calibration, scaling, '
-            'shift invariance, monotonicity'),
-    ('C06', 'TBR posterior vs Kerman eq. 5 oracle, invariances, summary '
-            'algebra, design-side fit'),
     ('C07', 'iROAS summary coherence, scenario label, determinism, '
             'equivariance'),
     ('C18', 'effect series well-formedness vs recomputation'),
     ('C19', 'screened data / analysis data vs plain recomputation'),
-    ('C20', 'expanded day lists vs a datetime.date oracle'),
 ]:
   define(
       _pid, 'exploration', [], ENGINE_TRUST[:0] + [
